@@ -341,6 +341,7 @@ bool Xml::Private::parse(const char* data, Element& element)
     return false;
   if(token.type != Token::startTagBeginType)
     return syntaxError(token.pos, "Expected '<'"), false;
+  element.clear(); // the element may be in use (an earlier document)
   return parseElement(element);
 }
 
@@ -393,6 +394,8 @@ bool Xml::Private::parseElement(Element& element)
       else // rewind to the start of the text, but not in front of a comment that precedes it
         this->pos = commentEnd.pos > pos.pos ? commentEnd : pos;
     }
+    else if(*this->pos.pos) // text that does not start with a token (e.g. " /usr/bin"): rewind all the same, the white space is part of it
+      this->pos = commentEnd.pos > pos.pos ? commentEnd : pos;
     String string;
     if(!parseText(string))
       return false;
@@ -454,7 +457,11 @@ int Xml::Parser::getErrorLine() const {return p->errorLine;}
 int Xml::Parser::getErrorColumn() const {return p->errorColumn;}
 String Xml::Parser::getErrorString() const {return p->errorString;}
 
-bool Xml::Parser::parse(const String& data, Element& element) {return p->parse(data, element);}
+bool Xml::Parser::parse(const String& data, Element& element)
+{
+  String text(data); // keeps the text alive when it is owned by element
+  return p->parse(text, element);
+}
 
 bool Xml::Parser::load(const String& filePath, Element& element)
 {
@@ -478,7 +485,8 @@ bool Xml::parse(const char* data, Element& element)
 
 bool Xml::parse(const String& data, Element& element)
 {
-  return parse((const char*)data, element);
+  String text(data); // keeps the text alive when it is owned by element
+  return parse((const char*)text, element);
 }
 
 bool Xml::load(const String& filePath, Element& element)
